@@ -8,10 +8,25 @@
 
   `PathOk p`  : `p` is non-empty and no dotted component ends in an index group (key-only path).
   "What Lookup finds at the target afterwards" is proved for EVERY non-empty path, list-item
-  components (`a.l[1]`) included.  Only the frame theorem is `…_partial`: it covers key-only
-  paths (`PathOk`); its full statement is kept in a comment.
+  components (`a.l[1]`) included.
+
+  Frame ("only that effect").  `set_frame`, `template_frame`, `import_frame` are the full-strength
+  statements, for ALL path strings — list-item components (`a.l[1].b`) included:
+  * `pathSteps (splitPath p)` is the step sequence of a path (`a.l[1].b` ↦ key a, key l, idx 1,
+    key b); "q is not under the target and not on the way to it" is: neither step sequence is a
+    prefix of the other;
+  * `Fits data (splitPath target)`: on the way to the target no key step lands on an existing
+    list and no index step lands on an existing container — otherwise the write REPLACES that
+    node together with everything below it, and paths into it that are not prefix-related to the
+    target do change (`frame_needs_fits` is the concrete counterexample; so the unconditional
+    statement formerly kept here in a comment is false);
+  * conclusion: the node found at `q` is unchanged — or `q` is a slot freshly created by padding
+    (a write at `l[3]` into a shorter list pads `l[1]`, `l[2]`): absent before, `null` now.
+    Nothing else can change (`nonvacuous_frame_idx` shows the pad case occurs).
+  `…_frame_diverge` are the same laws without `Fits`, for paths that part at two different keys
+  or two different indices (`DivergeIdx`).  The older key-only versions are kept as `…_frame_partial`.
 -/
-import YtkProofs.PipelineData
+import YtkProofs.PipelineFrame
 
 namespace Ytk.C13
 open Ytk.PD
@@ -105,8 +120,7 @@ theorem set_root_replace_lookup (data payload d' : AMap Node)
   cases h
   exact setReplaceRoot_spec payload data hk hd
 
-/- Full statement: every path that is not under the target and not on the way to it, including
-   paths through list items, is unchanged. -/
+/- Key-only version of `set_frame` below (kept; for key-only `q` no `Fits` hypothesis is needed). -/
 /-- Frame: a key-only path that diverges from the target (neither a dotted prefix of the other)
     resolves to the same node before and after SetOp, for both strategies. -/
 theorem set_frame_partial (data payload : AMap Node) (path q : String) (s : String)
@@ -126,6 +140,38 @@ theorem set_frame_partial (data payload : AMap Node) (path q : String) (s : Stri
       exact lookup_addValueAt_frame _ _ h hq h1 h2
     · rw [set_unknown_strategy_err mergeC data payload path s hm hr] at hd
       cases hd
+
+/-- Frame, full strength: after a successful SetOp (either strategy, or unset) at a non-empty
+    target that fits the document, every path `q` — list-item components included — that is not
+    under the target and not on the way to it (step sequences not prefix-related) finds the same
+    node as before; the only exception are slots freshly created by padding a list up to the
+    written index: absent before, `null` afterwards. -/
+theorem set_frame (data payload : AMap Node) (path q : String) (s : Option String)
+    (hp : path ≠ "") (hf : Fits data (splitPath path))
+    (h1 : ¬ pathSteps (splitPath path) <+: pathSteps (splitPath q))
+    (h2 : ¬ pathSteps (splitPath q) <+: pathSteps (splitPath path))
+    (d' : AMap Node) (hd : setOp mergeC data (some payload) path s = .ok d') :
+    lookup d' q = lookup data q ∨ (lookup data q = none ∧ lookup d' q = some Node.null) := by
+  obtain ⟨v, rfl⟩ := setOp_ok_addValueAt mergeC data payload path s hp d' hd
+  exact frameAt_addValueAt_steps data path q v hf h1 h2
+
+/-- the same without `Fits`, when target and `q` part at two different keys or two different
+    indices (after a common prefix of components) -/
+theorem set_frame_diverge (data payload : AMap Node) (path q : String) (s : Option String)
+    (hp : path ≠ "") (h : DivergeIdx (splitPath path) (splitPath q))
+    (d' : AMap Node) (hd : setOp mergeC data (some payload) path s = .ok d') :
+    lookup d' q = lookup data q ∨ (lookup data q = none ∧ lookup d' q = some Node.null) := by
+  obtain ⟨v, rfl⟩ := setOp_ok_addValueAt mergeC data payload path s hp d' hd
+  exact frameAt_addValueAt_diverge data path q v h
+
+/-- in particular: whatever was found at such a path before is still found there -/
+theorem set_frame_keeps (data payload : AMap Node) (path q : String) (s : Option String)
+    (hp : path ≠ "") (hf : Fits data (splitPath path))
+    (h1 : ¬ pathSteps (splitPath path) <+: pathSteps (splitPath q))
+    (h2 : ¬ pathSteps (splitPath q) <+: pathSteps (splitPath path))
+    (d' : AMap Node) (hd : setOp mergeC data (some payload) path s = .ok d')
+    (n : Node) (hn : lookup data q = some n) : lookup d' q = some n :=
+  FrameAt.of_some (set_frame mergeC data payload path q s hp hf h1 h2 d' hd) hn
 
 /-- an error leaves the document unchanged: `setOp` returns no document in that case, the
     caller keeps `data` (driver: `| o => … data`).  Stated as: ok-results only from merge/replace. -/
@@ -293,6 +339,50 @@ theorem import_frame_partial (cd : Codecs) (lenient : String → String) (conten
     · rfl
     · simp only [if_pos h.1]
       exact lookup_addValueAt_frame _ _ h hq h1 h2
+
+/-- TemplateOp, full strength: whatever the outcome, every path that is not under the (rendered)
+    target and not on the way to it finds the same node — or is a freshly padded slot (absent
+    before, `null` now). -/
+theorem template_frame (render : String → Option String) (lenient trimFn : String → String)
+    (yp : String → Option (Option YNode)) (t : TemplateSpec) (data : AMap Node) (q : String)
+    (hf : Fits data (splitPath (lenient t.path)))
+    (h1 : ¬ pathSteps (splitPath (lenient t.path)) <+: pathSteps (splitPath q))
+    (h2 : ¬ pathSteps (splitPath q) <+: pathSteps (splitPath (lenient t.path))) :
+    lookup (templateOp render lenient trimFn yp t data).1 q = lookup data q ∨
+      (lookup data q = none ∧ lookup (templateOp render lenient trimFn yp t data).1 q = some Node.null) := by
+  rcases templateOp_fst render lenient trimFn yp t data with e | ⟨v, e⟩
+  · rw [e]; exact Or.inl rfl
+  · rw [e]; exact frameAt_addValueAt_steps data _ q v hf h1 h2
+
+theorem template_frame_diverge (render : String → Option String) (lenient trimFn : String → String)
+    (yp : String → Option (Option YNode)) (t : TemplateSpec) (data : AMap Node) (q : String)
+    (h : DivergeIdx (splitPath (lenient t.path)) (splitPath q)) :
+    lookup (templateOp render lenient trimFn yp t data).1 q = lookup data q ∨
+      (lookup data q = none ∧ lookup (templateOp render lenient trimFn yp t data).1 q = some Node.null) := by
+  rcases templateOp_fst render lenient trimFn yp t data with e | ⟨v, e⟩
+  · rw [e]; exact Or.inl rfl
+  · rw [e]; exact frameAt_addValueAt_diverge data _ q v h
+
+/-- ImportOp with a non-empty (rendered) path, full strength -/
+theorem import_frame (cd : Codecs) (lenient : String → String) (content : Option (List Nat))
+    (mode path : String) (data : AMap Node) (q : String)
+    (hp : lenient path ≠ "") (hf : Fits data (splitPath (lenient path)))
+    (h1 : ¬ pathSteps (splitPath (lenient path)) <+: pathSteps (splitPath q))
+    (h2 : ¬ pathSteps (splitPath q) <+: pathSteps (splitPath (lenient path))) :
+    lookup (importOp cd lenient content mode path data).1 q = lookup data q ∨
+      (lookup data q = none ∧ lookup (importOp cd lenient content mode path data).1 q = some Node.null) := by
+  rcases importOp_fst cd lenient content mode path data hp with e | ⟨v, e⟩
+  · rw [e]; exact Or.inl rfl
+  · rw [e]; exact frameAt_addValueAt_steps data _ q v hf h1 h2
+
+theorem import_frame_diverge (cd : Codecs) (lenient : String → String) (content : Option (List Nat))
+    (mode path : String) (data : AMap Node) (q : String)
+    (hp : lenient path ≠ "") (h : DivergeIdx (splitPath (lenient path)) (splitPath q)) :
+    lookup (importOp cd lenient content mode path data).1 q = lookup data q ∨
+      (lookup data q = none ∧ lookup (importOp cd lenient content mode path data).1 q = some Node.null) := by
+  rcases importOp_fst cd lenient content mode path data hp with e | ⟨v, e⟩
+  · rw [e]; exact Or.inl rfl
+  · rw [e]; exact frameAt_addValueAt_diverge data _ q v h
 
 /-! ## EnvOp -/
 
@@ -480,6 +570,40 @@ theorem nonvacuous_set :
     setOp mergeContainers exData (some exPayload) "a" (some "replace") =
       .ok [("a", .cont exPayload), ("k", .leaf ⟨"bool", "true"⟩)] := by
   decide
+
+def exList : AMap Node :=
+  [("a", .cont [("l", .list [.leaf ⟨"int", "1"⟩])]), ("k", .leaf ⟨"bool", "true"⟩)]
+
+/-- the hypotheses of `set_frame` hold for the list-item target `a.l[3].b` in a document whose list
+    `a.l` has one item, against `q = a.l[1]` and `q = a.l[0]`; the write pads: `a.l[1]` was absent
+    and is `null` afterwards (the second disjunct occurs), `a.l[0]` keeps its value. -/
+theorem nonvacuous_frame_idx :
+    Fits exList (splitPath "a.l[3].b") ∧
+    ¬ pathSteps (splitPath "a.l[3].b") <+: pathSteps (splitPath "a.l[1]") ∧
+    ¬ pathSteps (splitPath "a.l[1]") <+: pathSteps (splitPath "a.l[3].b") ∧
+    DivergeIdx (splitPath "a.l[3].b") (splitPath "a.l[0]") ∧
+    (∃ d', setOp mergeContainers exList (some exPayload) "a.l[3].b" (some "replace") = .ok d' ∧
+      lookup exList "a.l[1]" = none ∧ lookup d' "a.l[1]" = some Node.null ∧
+      lookup d' "a.l[0]" = lookup exList "a.l[0]" ∧ lookup exList "a.l[0]" = some (.leaf ⟨"int", "1"⟩)) := by
+  refine ⟨fitsB_sound _ _ (by decide +kernel), by decide +kernel, by decide +kernel, ?_, ?_⟩
+  · have e1 : splitPath "a.l[3].b" = ["a", "l[3]", "b"] := by decide +kernel
+    have e2 : splitPath "a.l[0]" = ["a", "l[0]"] := by decide +kernel
+    rw [e1, e2]
+    refine .tail rfl (by simp) (by simp) (.idx (by decide +kernel) ⟨[], 3, 0, [], [], ?_, ?_, by decide⟩)
+    · decide +kernel
+    · decide +kernel
+  · exact ⟨_, rfl, by decide +kernel, by decide +kernel, by decide +kernel, by decide +kernel⟩
+
+/-- `Fits` cannot be dropped: the target `a.l.c` takes a key step into the existing list `a.l`;
+    the write replaces the list by a container, and `a.l[0]` — not under the target, not on the
+    way to it — loses its value. -/
+theorem frame_needs_fits :
+    ¬ pathSteps (splitPath "a.l.c") <+: pathSteps (splitPath "a.l[0]") ∧
+    ¬ pathSteps (splitPath "a.l[0]") <+: pathSteps (splitPath "a.l.c") ∧
+    fitsB exList (splitPath "a.l.c") = false ∧
+    (∃ d', setOp mergeContainers exList (some exPayload) "a.l.c" (some "replace") = .ok d' ∧
+      lookup exList "a.l[0]" = some (.leaf ⟨"int", "1"⟩) ∧ lookup d' "a.l[0]" = none) := by
+  refine ⟨by decide +kernel, by decide +kernel, by decide +kernel, _, rfl, by decide +kernel, by decide +kernel⟩
 
 theorem nonvacuous_env :
     envOp (fun n => n == "A" || n == "B") (fun n => n == "B") "p" (envEntries [("A", "1"), ("B", "2"), ("C", "x=y")]) [] =
